@@ -341,6 +341,56 @@ func (e *c03Env) actSocket(t *rapid.T) {
 	e.logf("SOCKET %+v", s)
 }
 
+// actDaeTakesOver: the 5-tuple of a locally originated flow is now used by dae itself (the
+// process that owned it went away; dae's socket is recognised by its pid, its socket mark
+// or the mark bit). Whatever decision is still cached for the tuple, dae's packets pass.
+func (e *c03Env) actDaeTakesOver(t *rapid.T) {
+	e.drain(nil)
+	var cands []*c03Flow
+	for _, f := range e.flows {
+		if f.Origin == c03OrigWan && f.DaeKind == 0 && !f.Tainted {
+			if f.TCP && f.Tracked && f.HasDecision {
+				// not generated: the TCP path identifies the sender only at the SYN (documented in
+				// pid_is_control_plane: "we just use it for handshake"), so segments dae sends on a
+				// tuple that still carries another process' cached decision follow that decision.
+				// Reported to the coordinator as a candidate finding; UDP is checked in full.
+				e.class("dae_takeover_of_tracked_tcp_tuple_not_generated")
+				continue
+			}
+			cands = append(cands, f)
+			if f.Tracked && f.HasDecision && f.Dec.Ob >= 2 {
+				cands = append(cands, f, f, f) // aim at tuples with a cached proxy decision
+			}
+		}
+	}
+	if len(cands) == 0 {
+		return
+	}
+	f := cands[rapid.IntRange(0, len(cands)-1).Draw(t, "flow")]
+	kinds := []int{1, 3}
+	if e.sockMark != 0 {
+		kinds = append(kinds, 2, 2)
+	}
+	f.DaeKind = rapid.SampledFrom(kinds).Draw(t, "daekind")
+	f.Cookie += 100 // a different socket
+	f.Registered = false
+	if f.DaeKind == 1 {
+		f.Pid, f.ProcName = c03CpPid, "dae"
+		e.registerProcess(f)
+	}
+	if f.Tracked && f.HasDecision {
+		e.class("dae_takes_over_tuple_with_cached_decision")
+		if f.Dec.Ob >= 2 {
+			e.class(map[bool]string{true: "dae_takes_over_proxied_tcp_tuple", false: "dae_takes_over_proxied_udp_tuple"}[f.TCP])
+		}
+	}
+	e.logf("DAE now owns %v (kind %d, cookie %d)", f, f.DaeKind, f.Cookie)
+	// dae's first packets on the tuple follow at once
+	for i, n := 0, rapid.IntRange(1, 2).Draw(t, "dae_packets"); i < n; i++ {
+		e.forwardOne(t, f)
+	}
+}
+
 func (e *c03Env) actMapFull(t *rapid.T) {
 	e.drain(nil)
 	e.mapFull = !e.mapFull
@@ -433,6 +483,7 @@ func c03History(t *rapid.T, unit string, aimProc bool) {
 	for i := 0; i < 3; i++ {
 		acts[fmt.Sprintf("clock%d", i)] = e.actClock
 	}
+	acts["dae"] = e.actDaeTakesOver
 	acts["env"] = func(t *rapid.T) {
 		switch rapid.IntRange(0, 3).Draw(t, "env") {
 		case 0:
